@@ -246,6 +246,34 @@ int main(int argc, char** argv) {
     own_formats(im, r, 400);
     tr.histories++;
   }
+  // every (w, h, alpha) in 1..64 x 1..64 with incompressible content through the PNG writer: sizes where the deflated
+  // stream is LARGER than the raw scanlines are spread thinly over this grid.  Small images are validated in full,
+  // the others when sampled - and always when save() does not return normally.
+  {
+    long idx = 0;
+    for (size_t w = 1; w <= 64; w++)
+      for (size_t h = 1; h <= 64; h++)
+        for (int alpha = 0; alpha <= 1; alpha++) {
+          if ((idx++ % nshards) != shard) continue;
+          Image im(w, h, alpha, 8);
+          uint8_t* d = (uint8_t*)im.get_data();
+          for (size_t k = 0; k < im.get_data_size(); k++) d[k] = (uint8_t)r.below(256);
+          string file, out = "ok";
+          try {
+            file = im.save(Image::Format::PNG);
+          } catch (const exception& e) {
+            out = vt::exc_name(e);
+          }
+          tr.events++;
+          bool full = out != "ok" || (quick ? (w * h <= 36 && (w + h) % 5 == 0) || r.chance(1) : w * h <= 400 || r.chance(4));
+          if (!full) continue;
+          vt::J j;
+          j.str("e", "save").str("fmt", "png").raw("img", img_json(im)).raw("file", js(file)).str("out", out);
+          j.raw("inflated", out == "ok" ? js(inflate_png(file)) : string("[]"));
+          tr.emit(j);
+          tr.nontrivial("pnggrid" + out + to_string(alpha));
+        }
+  }
   tr.stats();
   return 0;
 }
